@@ -61,7 +61,13 @@ func (ns *namesys) cacheGet(name string) (path.Path, time.Duration, time.Time, b
 }
 
 func (ns *namesys) cacheSet(name string, val path.Path, ttl time.Duration, lastMod time.Time) {
-	if ns.cache == nil || ttl <= 0 {
+	if ns.cache == nil {
+		return
+	}
+	if ttl <= 0 {
+		// The new value must not be cached. Drop what is cached for the name,
+		// so that the previous value does not outlive the one replacing it.
+		ns.cache.Remove(name)
 		return
 	}
 
